@@ -133,6 +133,12 @@ def run(tier, seed):
             prog = progs.random_program(rnd, rnd.randint(2, 12))
         regs = progs.initial_regs(rnd)
         mode = rnd.choice(["single_stage_pipeline", "five_stage_pipeline"])
+        if mode == "single_stage_pipeline" and it % 3 == 0:
+            # "for all programs": in single-cycle mode also programs with CSR instructions (user-level CSRs) -- after one of
+            # them the stage's register is a plain PipelineRegister, a path of the visualisation getters of its own
+            for _ in range(rnd.randint(1, 2)):
+                k = rnd.randint(0, len(prog))
+                prog = prog[:k] + [rnd.choice([I.CSRRW, I.CSRRS, I.CSRRC])(rd=rnd.choice([0, 5, 6]), csr=rnd.choice([1, 2, 3]), rs1=rnd.choice([0, 1, 2]))] + prog[k:]
         cached = dense or rnd.random() < 0.6
         d = i = None
         if cached and dense:
